@@ -4,10 +4,17 @@
   `Core.nodeCreate`, `Core.foreignAdd/Remove` (YkModel/CoreOps.lean) update every ledger in the order partition.go /
   application.go / queue.go / node.go do.  The driver steps this model from the state dumped from the real core and
   compares all ledgers after every operation, and evaluates the clauses below (as `Core.conserved`) on every dumped state.
-  `_partial`: the theorems cover the operations of the stepped model; the remaining operations (placeholder swap,
-  application and node removal, preemption, timers) are covered by the monitor on the implementation only.
+  YkModel/CoreOps2.lean adds the gang / removal / timer operations (placeholder swap start and confirmation, releases of
+  every termination type, release of a whole application, application removal, node removal, placeholder and state
+  timers, application add, cleanup); `books_reachable` covers whole histories of all of them.
+  `_partial`: operations still outside the stepped model (reservations made or cancelled in a scheduling cycle,
+  preemption decisions, RM-placed allocations, updates of foreign allocations, configuration reload) are covered by the
+  monitor on the implementation only.
 -/
 import YkProofs.Core
+import YkProofs.Core2Run
+import YkProofs.Core2Example
+import YkProofs.Core2Example2
 namespace Yk.C03
 open Yk Yk.Core Yk.Res
 
@@ -49,5 +56,150 @@ theorem drained_is_zero (s : Core) (hb : Books s) (ha : s.liveApps = [])
 theorem conserved_exec_sound (s : Core) (hw : CoreWF s) (ht : QueueTreeWF s) (h1 : s.conserved = none) (h2 : s.nodeLedger = none) :
     Books s :=
   books_of_exec s hw ht h1 h2
+
+/-! ### the gang / removal / timer operations (YkModel/CoreOps2.lean)
+
+Each keeps the books AND the well-formedness of the state.  The side conditions are explicit: `ReleaseOK` / `AppOnNodes`
+(the allocations the operation releases are listed by their nodes with the size the application books: the
+implementation skips the node and queue update otherwise), `SwapOK` (additionally: the linked real allocation is a proper
+replacement and not larger than the placeholder — the guard of tryPlaceholderAllocate), `FreshOnNode` / `FreshQueuesOK`
+(a key is new in a Go map / a new queue has nobody below it), `NodeRemoveOK` (a swap confirmed by the node removal is a
+proper swap; a reversed replacement does not saturate int64). -/
+
+/-- partition.removeAllocation for a key, every termination type (STOPPED_BY_RM, UNKNOWN, TIMEOUT,
+    PREEMPTED_BY_SCHEDULER; PLACEHOLDER_REPLACED without a linked replacement) -/
+theorem books_preserved_release (s : Core) (tt : TermType) (app key : String)
+    (hw : CoreWF s) (hb : Books s) (hrel : ReleaseOK s app key) :
+    Books (s.releaseKeyT tt app key) ∧ CoreWF (s.releaseKeyT tt app key) :=
+  releaseKeyT_props s tt app key hw hb hrel
+
+/-- tryPlaceholderAllocate decided a replacement (same node: nothing moves; other node: the real half is parked there) -/
+theorem books_preserved_swapStart (s s' : Core) (app realKey phKey node : String) (hw : CoreWF s) (hb : Books s)
+    (h : s.swapStart app realKey phKey node = some s') (hfresh : FreshOnNode s node realKey) : Books s' ∧ CoreWF s' :=
+  swapStart_props s s' app realKey phKey node hw hb h hfresh
+
+/-- the shim confirms the swap (PLACEHOLDER_REPLACED).  Also when the application leaves the partition in this very step
+    with its new real allocation (Failing → Failed, KNOWN_FINDINGS C03.I7t): the books of the live objects still agree.
+    Since fix 3b9e769 (removeAllocationInternal: a replacement that is being confirmed does not complete the application)
+    that is the only way an application leaves in this step: `swapConfirm_leaves_only_failing`. -/
+theorem books_preserved_swapConfirm (s : Core) (app phKey : String) (hw : CoreWF s) (hb : Books s) (hok : SwapOK s app phKey) :
+    Books (s.swapConfirm app phKey) ∧ CoreWF (s.swapConfirm app phKey) :=
+  swapConfirm_props s app phKey hw hb hok
+
+/-- In the step that confirms a replacement the application leaves the partition only by failing (I7t); the former
+    variant — a Completing / idle-looking application completing right before its real allocation is added (I7c) — is
+    gone with fix 3b9e769, which the model mirrors (`replApp`, `relAppT`). -/
+theorem swapConfirm_leaves_only_failing (p r : CItem) (a : CApp) (h : (replApp p r a).live = false) :
+    a.state = "Failing" ∨ terminated a.state = true :=
+  replApp_leaves_only_failing p r a h
+
+/-- release of every allocation (and, unless TIMEOUT, every ask) of an application -/
+theorem books_preserved_releaseApp (s : Core) (tt : TermType) (app : String) (hw : CoreWF s) (hb : Books s)
+    (hok : AppOnNodes s app) : Books (s.releaseApp tt app) ∧ CoreWF (s.releaseApp tt app) :=
+  releaseApp_props s tt app hw hb hok
+
+/-- partition.removeApplication -/
+theorem books_preserved_appRemove (s : Core) (app : String) (hw : CoreWF s) (hb : Books s) (hok : AppOnNodes s app) :
+    Books (s.appRemove app) ∧ CoreWF (s.appRemove app) :=
+  appRemove_props s app hw hb hok
+
+/-- partition.removeNode, including the in-flight replacement cases of removeNodeAllocations -/
+theorem books_preserved_nodeRemove (s : Core) (id : String) (order : List (String × String)) (hw : CoreWF s) (hb : Books s)
+    (hok : NodeRemoveOK s id order) : Books (s.nodeRemove id order) ∧ CoreWF (s.nodeRemove id order) :=
+  nodeRemove_props s id order hw hb hok
+
+/-- the placeholder timer (both cases) and the state timer: no side condition -/
+theorem books_preserved_timers (s : Core) (app : String) (ev : Option String) (hw : CoreWF s) (hb : Books s) :
+    (Books (s.phTimeout app ev) ∧ CoreWF (s.phTimeout app ev)) ∧ (Books (s.stateTimeout app) ∧ CoreWF (s.stateTimeout app)) :=
+  ⟨phTimeout_props s app ev hw hb, stateTimeout_props s app hw hb⟩
+
+/-- a new application (with the dynamic queues created for it), the clean-up of expired applications -/
+theorem books_preserved_appAdd_cleanup (s : Core) (a : Option CApp) (nq : List CQueue) (hw : CoreWF s) (hb : Books s)
+    (hok : FreshQueuesOK s nq) : (Books (s.appAdd a nq) ∧ CoreWF (s.appAdd a nq)) ∧ (Books s.cleanup ∧ CoreWF s.cleanup) :=
+  ⟨appAdd_props s a nq hw hb hok, cleanup_props s hw hb⟩
+
+/-- Whole histories: for every list of stepped operations (`Op`, YkModel/CoreRun.lean: all 21 operations of the stepped
+    model) applied to a state satisfying `CoreWF ∧ Books`, every step meeting its side condition (`RunOK`), the result
+    satisfies `Books` (and `CoreWF`). -/
+theorem books_reachable (s : Core) (ops : List Op) (hw : CoreWF s) (hb : Books s) (hok : RunOK s ops) :
+    Books (run s ops) ∧ CoreWF (run s ops) :=
+  Yk.books_reachable s ops hw hb hok
+
+/-- The full statement, without the side conditions: NOT true of the code. -/
+def books_reachable_full : Prop := ∀ (s : Core) (ops : List Op), CoreWF s → Books s → Books (run s ops)
+
+/-- … refuted on a concrete witness: a placeholder (cpu 4) whose node is not registered is "replaced" by a real
+    allocation of cpu 2: removeAllocation skips the node AND the queue update (`continue` when the node is not found), the
+    application books cpu 2, the root queue keeps cpu 4. -/
+theorem books_reachable_full_refuted : ¬ books_reachable_full := by
+  intro h
+  obtain ⟨hw, hb, _, hn⟩ := swapConfirm_books_refuted_without_node
+  exact hn (h swapW [.swapConfirm "app" "ph"] hw hb)
+
+/-! ### "every allocation an application lists is on its node" as an invariant
+
+`Linked s` (C03 clause I8): every bound item of every live application is listed by its registered node, for this
+application, non-foreign, with the size the application books.  Every operation of the stepped model preserves it
+(YkProofs/Core2Link*.lean), so along a history the node-side conditions of the release operations need not be assumed:
+they follow.  What remains as side condition of a step (`Op.ok2`, YkProofs/Core2RunL.lean): requests are well-formed
+(`wf`), a key is new in a Go map (`FreshOnNode`, `AskOK.newKey`, `FreshQueuesOK`), a confirmed replacement is a proper one,
+not larger than its placeholder and — across nodes — parked on its node (`SwapLinkOK`, `NodeRemoveOK`,
+`NodeRemoveLinkOK`), and no int64 saturation where a pending total grows (`AskOK.noSat`, `NodeRmOK`).
+(The converse clause I7 — every allocation on a node belongs to a live application that lists it — is NOT an invariant of
+the code: KNOWN_FINDINGS C03.I7t / I7r / I7o; the model reproduces these behaviours.) -/
+
+/-- one step keeps the linkage -/
+theorem linked_preserved (s : Core) (op : Op) (hw : CoreWF s) (hb : Books s) (hl : Linked s) (hok : op.ok2 s) :
+    Linked (op.apply s) :=
+  step_linked s op hw hb hl hok
+
+/-- Whole histories from a well-formed, balanced and linked state: for every list of operations of the stepped model whose
+    steps meet the reduced side condition, the result is balanced, well-formed and linked. -/
+theorem books_linked_reachable (s : Core) (ops : List Op) (hw : CoreWF s) (hb : Books s) (hl : Linked s)
+    (hok : RunOK2 s ops) : Books (run s ops) ∧ CoreWF (run s ops) ∧ Linked (run s ops) :=
+  reachable_linked s ops hw hb hl hok
+
+/-- … in particular the release operations need no side condition at all in a linked state -/
+theorem release_needs_no_side_condition (s : Core) (tt : TermType) (app key : String) (hw : CoreWF s) (hb : Books s)
+    (hl : Linked s) :
+    (Books (s.releaseKeyT tt app key) ∧ CoreWF (s.releaseKeyT tt app key) ∧ Linked (s.releaseKeyT tt app key)) ∧
+    (Books (s.releaseApp tt app) ∧ CoreWF (s.releaseApp tt app) ∧ Linked (s.releaseApp tt app)) ∧
+    (Books (s.appRemove app) ∧ CoreWF (s.appRemove app) ∧ Linked (s.appRemove app)) :=
+  ⟨⟨(releaseKeyT_props s tt app key hw hb (hl.releaseOK app key)).1, (releaseKeyT_props s tt app key hw hb (hl.releaseOK app key)).2,
+     linked_releaseKeyT s tt app key hw hb hl⟩,
+   ⟨(releaseApp_props s tt app hw hb (hl.appOnNodes app)).1, (releaseApp_props s tt app hw hb (hl.appOnNodes app)).2,
+     linked_releaseApp tt app hw hb hl⟩,
+   ⟨(appRemove_props s app hw hb (hl.appOnNodes app)).1, (appRemove_props s app hw hb (hl.appOnNodes app)).2,
+     linked_appRemove app hw hb hl⟩⟩
+
+/-! ### non-vacuity
+
+`Example.exOps` (YkProofs/Core2Example.lean): from the empty partition — a node registers, a gang application is added,
+asks for a placeholder (cpu 4) which the scheduler binds, asks for the real allocation (cpu 2), the scheduler starts the
+swap on the same node, the shim confirms it, the real allocation is released, the node is removed.  Every step meets
+its side condition (evaluated by the executable checkers `Op.okb`, sound for `Op.ok`), the states on the way are not
+trivial, and at the end everything is back to zero.  `Example.exOps2`: the node is removed while the swap is in flight. -/
+
+example : CoreWF Example.ex0 ∧ Books Example.ex0 ∧ RunOK Example.ex0 Example.exOps ∧
+    (Example.s4.nodes.map (·.allocated)) = [[("cpu", 4)]] ∧
+    (Example.s7.nodes.map (·.allocated)) = [[("cpu", 2)]] ∧
+    (Example.s7.queues.map (·.allocated)) = [[("cpu", 2)], [("cpu", 2)]] ∧
+    run Example.ex0 Example.exOps = Example.s9 ∧ Example.s9.nodes = [] ∧
+    (Example.s9.queues.map (·.allocated)) = [[], []] :=
+  ⟨Example.wf_ex0, Example.books_ex0, Example.exOps_ok, Example.s4_node.1, Example.s7_node, Example.s7_queues,
+   Example.run_exOps, Example.s9_nodes, Example.s9_queues.1⟩
+
+example : Books (run Example.ex0 Example.exOps) ∧ CoreWF (run Example.ex0 Example.exOps) :=
+  books_reachable _ _ Example.wf_ex0 Example.books_ex0 Example.exOps_ok
+
+example : RunOK Example.ex0 Example.exOps2 ∧ Books (run Example.ex0 Example.exOps2) :=
+  ⟨Example.exOps2_ok, Example.example2_reachable.1⟩
+
+/-- the same histories meet the reduced side conditions from the (trivially linked) empty partition; `Example.exOps3`: a
+    cross-node swap (the real half is parked on `n2` while the placeholder sits on `n1`) -/
+example : Linked Example.ex0 ∧ RunOK2 Example.ex0 Example.exOps ∧ RunOK2 Example.ex0 Example.exOps2 ∧
+    RunOK2 Example.ex0 Example.exOps3 ∧
+    (Books (run Example.ex0 Example.exOps3) ∧ CoreWF (run Example.ex0 Example.exOps3) ∧ Linked (run Example.ex0 Example.exOps3)) :=
+  ⟨Example.linked_ex0, Example.exOps_ok2, Example.exOps2_ok2, Example.exOps3_ok2, Example.example3_reachable_linked⟩
 
 end Yk.C03
